@@ -172,6 +172,16 @@ func renderPreformatted(ctx VueContext, w io.Writer, node *html.Node) error {
 	return nil
 }
 
+// hasTextAmongChildren reports whether an element has a child that is text other than white space.
+func hasTextAmongChildren(node *html.Node) bool {
+	for c := node.FirstChild; c != nil; c = c.NextSibling {
+		if c.Type == html.TextNode && strings.Trim(c.Data, " \t\n\r\f") != "" {
+			return true
+		}
+	}
+	return false
+}
+
 func renderNodeWithContext(ctx VueContext, w io.Writer, node *html.Node, indent int) error {
 	switch node.Type {
 	case html.TextNode:
@@ -304,6 +314,24 @@ func renderNodeWithContext(ctx VueContext, w io.Writer, node *html.Node, indent 
 			} else {
 				_, _ = w.Write([]byte(firstChild.Data))
 			}
+			_, _ = w.Write([]byte("</" + tagName + ">\n"))
+		} else if hasTextAmongChildren(node) {
+			// Mixed content (text next to elements, as in <p>a <em>b</em>c</p>): white space
+			// between the children is part of the text - "<em>b</em>c" and "<em>b</em> c" read
+			// differently - so the children are written as they are, without added indentation
+			// and line breaks
+			_, _ = w.Write([]byte(spaces + "<" + tagName + renderAttrs(node.Attr) + ">"))
+			if node.Namespace != "" {
+				ctx.PushTag(node.Namespace + ":" + tagName)
+			} else {
+				ctx.PushTag(tagName)
+			}
+			for c := firstChild; c != nil; c = c.NextSibling {
+				if err := renderPreformatted(ctx, w, c); err != nil {
+					return err
+				}
+			}
+			ctx.PopTag()
 			_, _ = w.Write([]byte("</" + tagName + ">\n"))
 		} else {
 			_, _ = w.Write([]byte(spaces + "<" + tagName + renderAttrs(node.Attr) + ">\n"))
